@@ -18,7 +18,7 @@ import numpy
 from vlib import c02_orbit
 
 GRID = 120000                   # model grid: multiples of 1e-4, 1/3, 1/8, 1/24 ...
-PI_Q = F(math.pi)
+PI_Q = F(math.pi).limit_denominator(10 ** 7)      # 5419351/1725033, relative error 7e-15: small numbers for the model run
 EPS_Q = F(1, 10 ** 8)
 TOL_POS = 1e-6
 TOL_U = 1e-8
@@ -244,7 +244,7 @@ def build(crystal, ops12, sp, rng):
                 vals.append("?" if rng.random() < 0.5 else ".")
             else:
                 u = s["adp"][1] if s["adp"][0] == "iso" else uequiv(s["adp"][1], L)
-                vals.append(num("%.12f" % (float(u) * UTOB)) if b else num(dec_str(F(u), 8) if s["adp"][0] == "iso" else "%.8f" % float(u)))
+                vals.append(num("%.10f" % (float(u) * UTOB)) if b else num(dec_str(F(u), 8) if s["adp"][0] == "iso" else "%.8f" % float(u)))
         cols.append(("_atom_site_B_iso_or_equiv" if b else "_atom_site_U_iso_or_equiv", vals))
     if crystal.get("adp_type_column"):
         nm = "_atom_site_adp_type" if not sp.get("thermal_name") else "_atom_site_thermal_displace_type"
@@ -263,7 +263,7 @@ def build(crystal, ops12, sp, rng):
         acols = [("_atom_site_aniso_label", [s["label"] for s in ani])]
         for nm, (i, j) in (("11", (0, 0)), ("22", (1, 1)), ("33", (2, 2)), ("12", (0, 1)), ("13", (0, 2)), ("23", (1, 2))):
             if b:
-                acols.append(("_atom_site_aniso_B_" + nm, [num("%.12f" % (float(s["adp"][1][i][j]) * UTOB)) for s in ani]))
+                acols.append(("_atom_site_aniso_B_" + nm, [num("%.10f" % (float(s["adp"][1][i][j]) * UTOB)) for s in ani]))
             else:
                 acols.append(("_atom_site_aniso_U_" + nm, [num(dec_str(s["adp"][1][i][j], 8)) for s in ani]))
         if sp.get("aniso_perm") is not None:
@@ -325,6 +325,8 @@ def uequiv(U, L):
 # ------------------------------------------------------------------ Coq terms
 def q(x):
     f = F(x)
+    if isinstance(x, float):
+        f = f.limit_denominator(10 ** 13)     # lattice quantities: 1e-13 is far below the comparison tolerances
     return "(%d # %d)" % (f.numerator, f.denominator) if f.numerator >= 0 else "((%d) # %d)" % (f.numerator, f.denominator)
 
 
